@@ -143,13 +143,15 @@ def cur() -> Ctx:
 
 SNAP_DEN = 10 ** 6
 SNAP_REL = 1e-12
+SNAP_ZERO = 1e-13
 
 
 def snap_float(f: float) -> Fraction:
     """
     Exact rational for a float.  Floats within 1e-12 (relative) of a rational with
     denominator <= 10^6 are snapped to it: kingdon divides code-generation polynomials by
-    integers in floating point, so 1/6 appears in generated source as 0.16666666666666666.
+    integers in floating point, so 1/6 appears in generated source as 0.16666666666666666;
+    constants below 1e-13 in magnitude are rounding dust of that arithmetic and are read as 0.
     Stated assumption of every real-arithmetic claim (DESIGN section 4).
     """
     if f != f or f in (float('inf'), float('-inf')):
@@ -157,6 +159,9 @@ def snap_float(f: float) -> Fraction:
     fr = Fraction(f)
     if fr.denominator == 1:
         return fr
+    if abs(f) < SNAP_ZERO:
+        # rounding dust such as 2.8e-17 left behind by float coefficient arithmetic at generation time
+        return Fraction(0)
     sn = fr.limit_denominator(SNAP_DEN)
     if abs(float(sn) - f) <= SNAP_REL * abs(f):
         return sn
